@@ -241,8 +241,20 @@ pub fn impl_(ctx: &Context, input: &DeriveInput) -> TokenStream {
                 let item = field_postfix(i, f);
                 quote! { self.#item }
             });
+            let floor = if ctx.info.sized {
+                quote! {}
+            } else {
+                // Initialize exactly the bytes that the mapped reference covers (see `ptr_from_bytes`).
+                quote! {
+                    let __flatty_bytes = {
+                        let len = ::flatty::utils::floor_mul(__flatty_bytes.len(), <#self_ident<#self_args> as FlatBase>::ALIGN);
+                        __flatty_bytes.get_unchecked_mut(..len)
+                    };
+                }
+            };
             quote! {
                 let __flatty_offset = 0;
+                #floor
                 #body
             }
         }
@@ -280,6 +292,11 @@ pub fn impl_(ctx: &Context, input: &DeriveInput) -> TokenStream {
                         #set_tag
                         let __flatty_offset = <#self_ident<#self_args>>::DATA_OFFSET;
                         let __flatty_bytes = __flatty_bytes.get_unchecked_mut(__flatty_offset..);
+                        // Initialize exactly the bytes that the mapped reference covers (see `ptr_from_bytes`).
+                        let __flatty_bytes = {
+                            let len = ::flatty::utils::floor_mul(__flatty_bytes.len(), <#self_ident<#self_args> as FlatBase>::ALIGN);
+                            __flatty_bytes.get_unchecked_mut(..len)
+                        };
                         #body
                     }
                 }
